@@ -115,17 +115,22 @@ def run(prog, tier) -> Result:
 
     # ---- R20.2 prefixes
     pref = json.load(open(os.path.join(VERIF, "oracle", "si_prefixes.json"), encoding="utf-8"))["prefixes"]
+    # the prefix constants are API (KILO, MILLI, ...): each SI prefix is looked up by the constant's name, and the
+    # constant must carry that prefix's name, abbreviation and power of ten
     seen = 0
-    for p in cat.prefixes.values():
-        r = pref.get((p.name or "").lower())
-        if r is None:
-            res.notes.append(f"UNVERIFIED-ADDITION: prefix {p.var}")
+    by_var = {(p.var or "").upper(): p for p in cat.prefixes.values()}
+    for nm, r in sorted(pref.items()):
+        p = by_var.get(nm.upper())
+        if p is None:
+            res.ob("R20.2", f"si_prefixes.{nm.upper()}", "declared", False, f"no prefix constant {nm.upper()} in si_prefixes.py",
+                   sig="SI prefix missing")
             continue
         seen += 1
-        res.ob("R20.2", f"si_prefixes.{p.var}", "power of ten", p.exp == r[1] and p.abbr == r[0],
-               f"{p.var} = SIPrefix({p.name!r}, {p.abbr!r}, {p.exp}); SI: {r[0]!r}, 10^{r[1]}", sig="wrong prefix")
-    if seen < 20 and len(cat.prefixes) >= 20:
-        raise AnalysisError("prefix names no longer match the SI names")
+        res.ob("R20.2", f"si_prefixes.{p.var}", "power of ten", p.exp == r[1] and p.abbr == r[0] and (p.name or "").lower() == nm,
+               f"{p.var} = SIPrefix({p.name!r}, {p.abbr!r}, {p.exp}); SI: {nm.capitalize()!r}, {r[0]!r}, 10^{r[1]}", sig="wrong prefix")
+    for p in cat.prefixes.values():
+        if (p.var or "").lower() not in pref:
+            res.notes.append(f"UNVERIFIED-ADDITION: prefix {p.var}")
     prog.method("SIPrefix", "factor")
     if cat.prefix_factor_ok is None:
         raise AnalysisError(f"SIPrefix.factor cannot be evaluated: {cat.prefix_factor_detail}")
